@@ -186,6 +186,17 @@ def run(ctx):
               "free-algebra rewriting to normal form (pvx/words.py)")
     ctx.assume("PSD lemmas: X P X^T is PSD for PSD P; sums of PSD are PSD; PSD + PD is PD", "continuity of the Bayes update on the PSD cone (singular P)",
                "additivity of the information form => order independence of independent blocks (lemma over the discharged identity)")
+    ctx.guard(_algebra, ctx, py)
+    ctx.guard(_standin, ctx, py)
+
+    # frame of the modules under contract (no state kept between calls, arguments left alone): same analysis as C19
+    from props import C19 as _C19
+    ctx.guard(_C19.frame_obligations, ctx, py, "C07", {'kalman'})
+
+
+def _algebra(ctx, py):
+    """the real kalman.correct on matrix letters (W domain)"""
+    K = py.kalman
     t0 = time.time()
 
     def body():
@@ -261,11 +272,6 @@ def run(ctx):
         ctx.ob("C07.frame" + sfx, "f", not over and not log.get("alloc_dtype_from_argument"), "stub-log(object identity)", 0.0,
                "overwrite_* flags only on fresh intermediates, no parameter is written" + pc,
                cex=None if not over else dict(overwritten_parameter=over), native=None if not over else _native_frame(py))
-    ctx.guard(_standin, ctx, py)
-
-    # frame of the modules under contract (no state kept between calls, arguments left alone): same analysis as C19
-    from props import C19 as _C19
-    ctx.guard(_C19.frame_obligations, ctx, py, "C07", {'kalman'})
 
 
 # -----------------------------------------------------------------------------------------------
@@ -307,13 +313,35 @@ def _case(rng, n, m, kind):
     if kind == "extreme":
         H = np.eye(n)[rng.choice(n, m, replace=False)]
         R = np.eye(m) * 1e-8 * rng.uniform(0.5, 2.0)
-    return rng.randn(n), P, rng.randn(m), H, R
+    x, z = rng.randn(n), rng.randn(m)
+    if kind == "structured" and n >= 2:
+        # relative / selection measurements: rows e_a - e_b and e_a (columns whose entries cancel, zero columns, repeated states)
+        H = np.zeros((m, n))
+        for i in range(m):
+            a, b = rng.choice(n, 2, replace=False)
+            H[i, a] = 1.0
+            if i % 2 == 0:
+                H[i, b] = -1.0
+        if m >= 2:
+            a, b = rng.choice(n, 2, replace=False)
+            H[0] = 0.0
+            H[0, a], H[0, b] = 1.0, -1.0
+            H[1] = 0.0
+            H[1, a] = -1.0 if rng.rand() < 0.5 else 1.0
+            H[1, b] = 1.0 if H[1, a] < 0 else 0.0
+    if kind == "zero_residual":
+        # residual with exact zeros after a non-zero component (a measurement that agrees exactly with the prediction)
+        e = np.zeros(m)
+        e[0] = rng.randn()
+        z = H.dot(x) + e
+        z[1:] = H.dot(x)[1:]
+    return x, P, z, H, R
 
 
 def _native_quick(py):
     rng = np.random.RandomState(0)
     bad = []
-    for kind in ("well", "ill", "rank", "extreme", "extreme", "extreme"):
+    for kind in ("well", "ill", "rank", "extreme", "extreme", "extreme", "structured", "structured", "structured", "zero_residual", "zero_residual"):
         x, P, z, H, R = _case(rng, 5, 2, kind)
         r = _check_one(py, x, P, z, H, R)
         if r:
@@ -379,7 +407,7 @@ def _standin(ctx, py):
     fails = []
     for k in range(n_cases):
         n, m = int(rng.randint(1, 13 if ctx.tier == "quick" else 21)), int(rng.randint(1, 7))
-        kind = ["well", "ill", "rank", "extreme"][k % 4]
+        kind = ["well", "ill", "rank", "extreme", "structured", "zero_residual"][k % 6]
         if kind == "extreme":
             m = min(m, n)
         x, P, z, H, R = _case(rng, n, m, kind)
